@@ -13,6 +13,8 @@ MANIFEST_ENTRY = {
     "note": "servers_of_happiness / merge_servers are callee contracts (C07/C08); Deferred scheduling is modelled by a chain interpreter (callbacks on success, errbacks on failure). The query loop itself (which servers are asked, time-outs, read-only servers) and the storage-server side of abort (C22: aborted buckets leave no visible share) are outside these contracts. Bounded: 1..3 landlords/trackers.",
     "technique": "contract-based deductive verification (pyvc VCs + z3) with callee contracts, a Deferred-chain model and a mechanically extracted code segment; landlord counts bounded",
 }
+MANIFEST_ENTRY["text"] += ' Bounded end-to-end stand-in (run-time contract, never counted as proved): contracts/grid_upload.py runs the real Uploader, server selector, Encoder, checker/verifier and repairer against real StorageServers on disk (contracts/real_grid.py) with read-only, full and failing servers and pre-existing shares, and compares results with ground truth read from the disks and with a reference encoding.'
+MANIFEST_ENTRY["technique"] += "; plus bounded end-to-end run-time scenario contracts on an in-process grid of the real components (stand-in, labelled bounded)"
 EXPLANATION = "Decision and error-path contracts of the real upload code."
 TRUSTED = ["servers_of_happiness/merge_servers (C07, C08)", "twisted Deferred callback/errback semantics as implemented by contracts.lib.fire_chain"]
 ASSUMPTIONS = []
